@@ -1,0 +1,103 @@
+//go:build verif
+
+// Contracts for the verification machinery in /verif (comment-only; compiled only with -tags verif).
+package types
+
+// ---------------------------------------------------------------- store keys (byte level)
+
+//@ func GetWrkChainIDBytes(wrkChainID) (bz)
+//@   props C18
+//@   nopanic
+//@   ensures len(bz) == 8 && bz != nil && be64at(arr(bz), 0, wrkChainID)
+
+//@ func GetWrkChainIDFromBytes(bz) (id)
+//@   props C18
+//@   requires len(bz) >= 8
+//@   nopanic
+//@   ensures be64at(arr(bz), 0, id)
+
+//@ func WrkChainKey(wrkChainID) (key)
+//@   props C18
+//@   nopanic
+//@   ensures len(key) == 9 && key != nil && key[0] == 1 && be64at(arr(key), 1, wrkChainID)
+
+//@ func WrkChainAllBlocksKey(wrkChainID) (key)
+//@   props C18
+//@   nopanic
+//@   ensures len(key) == 9 && key != nil && key[0] == 2 && be64at(arr(key), 1, wrkChainID)
+
+//@ func WrkChainBlockKey(wrkChainID, height) (key)
+//@   props C18
+//@   nopanic
+//@   ensures len(key) == 17 && key != nil && key[0] == 2 && be64at(arr(key), 1, wrkChainID) && be64at(arr(key), 9, height)
+
+//@ func WrkChainStorageLimitKey(wrkChainID) (key)
+//@   props C18
+//@   nopanic
+//@   ensures len(key) == 9 && key != nil && key[0] == 3 && be64at(arr(key), 1, wrkChainID)
+
+//@ lemma wrkchain_id_roundtrip [C18]
+//@   vars a uint64
+//@   call bz := GetWrkChainIDBytes(a)
+//@   call b := GetWrkChainIDFromBytes(bz)
+//@   use be64_recon(a)
+//@   use be64_recon(b)
+//@   show a == b
+
+//@ lemma wrkchain_key_injective [C18]
+//@   vars a uint64, b uint64
+//@   call k1 := WrkChainKey(a)
+//@   call k2 := WrkChainKey(b)
+//@   assume bytesEq(k1, k2)
+//@   use be64_recon(a)
+//@   use be64_recon(b)
+//@   show a == b
+
+//@ lemma wrkchain_limit_key_injective [C18]
+//@   vars a uint64, b uint64
+//@   call k1 := WrkChainStorageLimitKey(a)
+//@   call k2 := WrkChainStorageLimitKey(b)
+//@   assume bytesEq(k1, k2)
+//@   use be64_recon(a)
+//@   use be64_recon(b)
+//@   show a == b
+
+//@ lemma wrkchain_block_key_injective [C18]
+//@   vars a uint64, h uint64, b uint64, g uint64
+//@   call k1 := WrkChainBlockKey(a, h)
+//@   call k2 := WrkChainBlockKey(b, g)
+//@   assume bytesEq(k1, k2)
+//@   use be64_recon(a)
+//@   use be64_recon(b)
+//@   use be64_recon(h)
+//@   use be64_recon(g)
+//@   show a == b && h == g
+
+// ascending iteration under the per-chain prefix is ascending height
+//@ lemma wrkchain_block_key_order [C18]
+//@   vars a uint64, h uint64, g uint64
+//@   call k1 := WrkChainBlockKey(a, h)
+//@   call k2 := WrkChainBlockKey(a, g)
+//@   assume h < g
+//@   use be64_recon(h)
+//@   use be64_recon(g)
+//@   show same8(arr(k1), 1, arr(k2), 1) && k1[0] == k2[0] && lexLess8(arr(k1), 9, arr(k2), 9)
+
+// the per-chain prefix selects exactly that chain's records
+//@ lemma wrkchain_block_prefix [C18]
+//@   vars a uint64, b uint64, h uint64
+//@   call p := WrkChainAllBlocksKey(a)
+//@   call k := WrkChainBlockKey(b, h)
+//@   use be64_recon(a)
+//@   use be64_recon(b)
+//@   show (p[0] == k[0] && same8(arr(p), 1, arr(k), 1)) == (a == b)
+
+// sections never collide: first bytes 0x01 (registrations), 0x02 (records), 0x03 (limits), 0x04 (params), 0x20 (highest id)
+//@ lemma wrkchain_sections_disjoint [C18]
+//@   vars a uint64, b uint64, c uint64, h uint64
+//@   call k1 := WrkChainKey(a)
+//@   call k2 := WrkChainBlockKey(b, h)
+//@   call k3 := WrkChainStorageLimitKey(c)
+//@   show k1[0] != k2[0] && k1[0] != k3[0] && k2[0] != k3[0]
+//@   show k1[0] != 4 && k2[0] != 4 && k3[0] != 4 && k1[0] != 32 && k2[0] != 32 && k3[0] != 32
+//@   show len(k1) != len(k2) || k1[0] != k2[0]
